@@ -36,7 +36,8 @@ ASSUMPTIONS = ["value equality is decided on the states simulated histories reac
 TIERS = {"quick": {"runs": 108}, "thorough": {"runs": 2400}}
 REQUIRED = ["terminated_successor_irrelevant", "corrupted_rows_sampled", "control_fault_changes_trace", "batch_order_irrelevant",
             "update_matches_reference:q_loss", "update_matches_reference:q_mean", "td_errors_match_reference", "update_on_mixed_terminated_batch",
-            "update_with_active_value_clipping", "update_with_reward_scale_not_one", "update_matches_reference:embedding_loss", "update_matches_reference:weighted_loss"]
+            "update_with_active_value_clipping", "update_with_reward_scale_not_one", "update_matches_reference:embedding_loss", "update_matches_reference:weighted_loss",
+            "double_q_selection_differs_from_target_argmax"]
 REQUIRED_QUICK = ["terminated_successor_irrelevant", "corrupted_rows_sampled", "control_fault_changes_trace", "batch_order_irrelevant",
                   "update_matches_reference:q_loss", "update_matches_reference:q_mean", "td_errors_match_reference", "update_on_mixed_terminated_batch"]
 CHUNK = 24  # TrainSim plans per fresh worker process
@@ -94,6 +95,10 @@ def value_plan(rng, name):
         # online and target network must differ at most updates (several online updates between two target copies)
         c["target_update_frequency"] = rng.choice([3, 5, 7, 7])
         c["update_frequency"] = rng.choice([1, 1, 2])
+        if name != "nature_dqn":
+            # double-Q selection only differs from the target's own maximiser once the online network has moved away
+            c["lr"] = rng.choice([0.05, 0.1, 0.3])
+            plan["env"]["discrete"] = rng.choice([3, 4])
     if name == "mrq":
         # boundary: a terminated flag on the LAST step of the n-step window (with horizon 1: every terminated transition)
         c["q_horizon"] = rng.choice([1, 1, 2, 3])
